@@ -652,6 +652,156 @@ def h_rows(H):
     S.explore(body)
 
 
+# ----------------------------------------------------------------------------- extract_wfs_cbin: the running index of a waveform within its unit
+def groupby_cluster_contract(it, n, cluster, sample):
+    """ASSUMED (pandas): df.loc[df['sample'] >= 0, :].groupby('cluster').aggregate(count=('cluster', 'count'), ...) on a frame whose 'cluster'
+    column is non decreasing and whose samples are all >= 0 (both OBLIGED here): one row per run of equal unit ids, in row order;
+    count[j] = length of run j.  The runs are described by their first rows rb(0) = 0 < rb(1) < ... < rb(nu) = n."""
+    r, r2 = z3.Int(fresh_name("r")), z3.Int(fresh_name("r"))
+    it.ctx.oblige("running_index.groupby.pre.units_contiguous", A.forall([r, r2], lambda: z3.Implies(z3.And(r >= 0, r < r2, r2 < n), cluster.read((r,)) <= cluster.read((r2,)))), "pre",
+                  "the table handed to the per-unit aggregation is sorted by unit", assume=True)
+    it.ctx.oblige("running_index.groupby.pre.all_rows_counted", A.forall([r], lambda: z3.Implies(z3.And(r >= 0, r < n), sample.read((r,)) >= 0)), "pre",
+                  "the aggregation only counts rows with a sample >= 0: all rows of the table have one", assume=True)
+    nu = z3.Int(fresh_name("nunits"))
+    rb = z3.Function(fresh_name("run_start"), z3.IntSort(), z3.IntSort())
+    runof = z3.Function(fresh_name("run_of"), z3.IntSort(), z3.IntSort())
+    j, j2, q = z3.Int(fresh_name("j")), z3.Int(fresh_name("j")), z3.Int(fresh_name("q"))
+    cs = cluster.snapshot()
+    A.note_fact(nu >= 1, nu <= n, rb(z3.IntVal(0)) == 0, rb(nu) == n,
+                z3.ForAll([j, j2], z3.Implies(z3.And(j >= 0, j < j2, j2 <= nu), rb(j) < rb(j2)), patterns=[z3.MultiPattern(rb(j), rb(j2))]),
+                z3.ForAll([q], z3.Implies(z3.And(q >= 0, q < n), z3.And(runof(q) >= 0, runof(q) < nu, rb(runof(q)) <= q, q < rb(runof(q) + 1))), patterns=[runof(q)]),
+                # a run is a maximal stretch of equal unit ids: a row starts a run iff its unit differs from the row before
+                z3.ForAll([q], z3.Implies(z3.And(q >= 1, q < n), (cs((q,)) != cs((q - 1,))) == (rb(runof(q)) == q)), patterns=[runof(q)]),
+                # (consequences, stated for the solver's benefit) the run of a first row is that run
+                z3.ForAll([j], z3.Implies(z3.And(j >= 0, j < nu), runof(rb(j)) == j), patterns=[rb(j)]))
+    count = SArr(np.dtype("int64"), (A.dim(nu),), lambda idx: rb(idx[0] + 1) - rb(idx[0]))
+    return nu, rb, runof, count
+
+
+def _uf_apps_of(t, var):
+    """applications f(var) of uninterpreted functions inside t (usable as quantifier patterns)"""
+    out, seen, todo = [], set(), [z3.simplify(t)]
+    while todo:
+        x = todo.pop()
+        if x.get_id() in seen or not z3.is_app(x):
+            continue
+        seen.add(x.get_id())
+        if x.decl().kind() == z3.Z3_OP_UNINTERPRETED and x.num_args() == 1 and x.arg(0).eq(var):
+            out.append(x)
+        todo.extend(x.children())
+    return out[:4]
+
+
+def _run_start_lemma(it, n, pos, rank, cnt, rb, runof, nu):
+    """proof hint: the rows where the unit changes, enumerated in order (pos), are the first rows of runs 1, 2, ... (rb): two strictly increasing
+    enumerations of the same set.  g(k) = run of pos(k) and h(j) = rank of rb(j) are inverse of each other and increasing, so g(k) = k + 1 (induction)"""
+    k, j = z3.Int(fresh_name("k")), z3.Int(fresh_name("j"))
+    g = lambda k_: runof(pos(k_))       # noqa
+    h = lambda j_: rank(rb(j_))         # noqa
+    it.ctx.oblige("running_index.lemma.a_change_starts_a_run", z3.ForAll([k], z3.Implies(z3.And(k >= 0, k < cnt), z3.And(g(k) >= 1, g(k) < nu, rb(g(k)) == pos(k))), patterns=[pos(k)]), "lemma")
+    it.ctx.oblige("running_index.lemma.a_run_starts_at_a_change", z3.ForAll([j], z3.Implies(z3.And(j >= 1, j < nu), z3.And(h(j) >= 0, h(j) < cnt, pos(h(j)) == rb(j))), patterns=[rb(j)]), "lemma")
+    it.ctx.oblige("running_index.lemma.changes_are_run_starts.base", z3.Implies(cnt >= 1, g(z3.IntVal(0)) == 1), "lemma", assume=False)
+    jj = z3.Int(fresh_name("j"))
+    it.ctx.oblige("running_index.lemma.changes_are_run_starts.step",
+                  A.forall([jj], lambda: z3.Implies(z3.And(jj >= 0, jj + 1 < cnt, g(jj) == jj + 1), g(jj + 1) == jj + 2)), "lemma", assume=False)
+    j3 = z3.Int(fresh_name("j"))
+    it.ctx.assume(z3.ForAll([j3], z3.Implies(z3.And(j3 >= 0, j3 < cnt), z3.And(g(j3) == j3 + 1, pos(j3) == rb(j3 + 1))), patterns=[pos(j3)]))
+    it.ctx.oblige("running_index.lemma.changes_count", cnt == nu - 1, "lemma", "as many unit changes as units but one")
+
+
+@harness(PROPERTY, "extract_wfs_cbin_running_index", functions=["ibldsp.waveform_extraction:extract_wfs_cbin"], replay=replay_chunks,
+         clause="the saved table numbers the waveforms of each unit 0, 1, 2, ... in row order (the loader selects waveforms of a unit through this column)")
+def h_running(H):
+    import ast
+    from pyvc import interp as I
+    S = H.session("cbin.running_index")
+    FN = WE.extract_wfs_cbin
+
+    def body(it):
+        n = z3.Int("nrows")
+        it.ctx.assume(z3.And(n >= 1, n <= 2 ** 40))
+        sample = A.fresh_array("sample", "int64", (n,), ranged=False)
+        cluster = A.fresh_array("cluster", "int64", (n,), ranged=False)
+        wi = A.fresh_array("waveform_index", "int64", (n,), ranged=False)
+        k = z3.Int(fresh_name("k"))
+        it.ctx.assume(z3.ForAll([k], z3.Implies(z3.And(k >= 0, k < n), sample.uf(k) >= 0), patterns=[sample.uf(k)]))      # spike times are sample numbers (>= 0): _make_wfs_table copies them
+        table = pdmodel.SFrame({"sample": sample, "cluster": cluster, "waveform_index": wi})
+        node, filename = I.SOURCES.funcdef(FN)
+        it.session.note_function(FN)
+        env = I.Env(None, FN.__globals__, qualname="extract_wfs_cbin", filename=filename)
+        env.funcnode = node
+        env.vars.update(dict(wf_flat=table))
+        it.ctx.func = env.qualname
+        src = [ast.unparse(st) for st in node.body]
+        i_sort = [i for i, t in enumerate(src) if "wf_flat.sort_values" in t]
+        i_agg = [i for i, t in enumerate(src) if t.startswith("df_clusters = aggregate_by_clusters(")]
+        i_last = [i for i, t in enumerate(src) if "index_within_clusters" in t]
+        if len(i_sort) != 1 or len(i_agg) != 1 or not i_last or not (i_sort[0] < i_agg[0] < i_last[0]):
+            raise I.Unsupported("cannot identify the re-sort / aggregation / running index statements of extract_wfs_cbin()")
+        got = {}
+
+        def agg_summary(it_, a, k_):
+            f = a[0]
+            if f is not env.vars["wf_flat"]:
+                raise I.Unsupported("aggregate_by_clusters() of another table")
+            cl, sm = f["cluster"].to_numpy(), f["sample"].to_numpy()
+            got["cluster"] = cl.snapshot()
+            nu, rb, runof, count = groupby_cluster_contract(it_, n, cl, sm)
+            got.update(nu=nu, rb=rb, runof=runof)
+            fi = A.fresh_array("first_index", "int64", (A.dim(nu),), ranged=False)
+            li = A.fresh_array("last_index", "int64", (A.dim(nu),), ranged=False)
+            return pdmodel.SFrame({"count": count, "first_index": fi, "last_index": li})
+        it.session.contracts[WE.aggregate_by_clusters] = agg_summary
+        it.exec_stmt(node.body[i_sort[0]], env)
+        it.exec_stmt(node.body[i_agg[0]], env)
+        if "rb" not in got:
+            raise I.Unsupported("the per-unit aggregation is not aggregate_by_clusters(wf_flat)")
+        rb, runof, nu = got["rb"], got["runof"], got["nu"]
+        r = z3.Int("r")
+        want = lambda r_: r_ - rb(runof(r_))        # noqa  position of row r_ within its run
+        # the statements that build the column: everything from the first to the last statement mentioning it
+        for st in node.body[i_last[0]:i_last[-1] + 1]:
+            tgt = st.targets[0] if isinstance(st, ast.Assign) and len(st.targets) == 1 else None
+            masks = []
+            if isinstance(tgt, ast.Subscript) and isinstance(tgt.value, ast.Attribute) and tgt.value.attr == "loc" and isinstance(tgt.slice, ast.Tuple) and len(tgt.slice.elts) == 2 \
+                    and isinstance(tgt.slice.elts[1], ast.Constant) and tgt.slice.elts[1].value == "index_within_clusters":
+                m_ = it.eval(tgt.slice.elts[0], env)
+                m_ = m_.arr if isinstance(m_, pdmodel.SSeries) else m_
+                if isinstance(m_, SArr) and m_.ndim == 1 and m_.dtype.kind == "b":
+                    masks.append(A.where1d(m_).where_of[0])
+            # hint for a mask assignment into the column: the rows the mask selects, enumerated in order, are the first rows of runs 1, 2, ...
+            # whenever the mask marks the unit changes (two strictly increasing enumerations of the same set); by induction on j, applied here
+            for w_ in masks:
+                pos, cnt, ms_ = w_["rows"], w_["count"], w_["mask"]
+                cl_ = got["cluster"]
+                q_ = z3.Int(fresh_name("q"))
+                is_change_mask = z3.Implies(z3.And(q_ >= 0, q_ < n), ms_((q_,)) == z3.And(q_ >= 1, cl_((q_,)) != cl_((q_ - 1,))))      # q_ is a fresh constant: holds for every row
+                if not it.ctx.entails(is_change_mask):
+                    continue
+                _run_start_lemma(it, n, pos, w_["rank"], cnt, rb, runof, nu)
+            it.exec_stmt(st, env)
+        col = env.vars["wf_flat"]["index_within_clusters"].to_numpy()
+        qq, ju = z3.Int(fresh_name("q")), z3.Int(fresh_name("j"))
+        it.ctx.oblige("running_index.lemma.run_of_a_row_is_unique", z3.ForAll([qq, ju], z3.Implies(z3.And(qq >= 0, qq < n, ju >= 0, ju < nu, rb(ju) <= qq, qq < rb(ju + 1)), runof(qq) == ju),
+                                                                             patterns=[z3.MultiPattern(runof(qq), rb(ju))]), "lemma")
+        it.ctx.oblige("running_index.shape", A.T(col.shape[0]) == n, "post", assume=False)
+        it.ctx.oblige("running_index.induction.base", col.read((z3.IntVal(0),)) == 0, "lemma", "the first row of the table is waveform 0 of its unit", assume=False)
+        cl = got["cluster"]
+        it.ctx.oblige("running_index.induction.step.same_unit", A.forall([r], lambda: z3.Implies(z3.And(r >= 0, r + 1 < n, col.read((r,)) == want(r), cl((r + 1,)) == cl((r,))), col.read((r + 1,)) == want(r + 1))), "lemma",
+                      "row r+1 continues the numbering of its unit", assume=False)
+        it.ctx.oblige("running_index.induction.step.new_unit", A.forall([r], lambda: z3.Implies(z3.And(r >= 0, r + 1 < n, col.read((r,)) == want(r), cl((r + 1,)) != cl((r,))), col.read((r + 1,)) == want(r + 1))), "lemma",
+                      "row r+1 restarts the numbering at 0 when the unit changes", assume=False)
+        rr = z3.Int(fresh_name("r"))
+        it.ctx.assume(z3.ForAll([rr], z3.Implies(z3.And(rr >= 0, rr < n), col.read((rr,)) == want(rr)), patterns=[runof(rr)] + _uf_apps_of(col.read((rr,)), rr)))
+        cl = got["cluster"]
+        r2 = z3.Int("r2")
+        it.ctx.oblige("running_index.numbers_each_unit_from_zero", A.forall([r], lambda: z3.Implies(z3.And(r >= 0, r < n), z3.And(
+            col.read((r,)) >= 0, z3.Implies(z3.Or(r == 0, cl((r,)) != cl((r - 1,))), col.read((r,)) == 0),
+            z3.Implies(z3.And(r >= 1, cl((r,)) == cl((r - 1,))), col.read((r,)) == col.read((r - 1,)) + 1)))), "post",
+            "0 on the first row of a unit, one more than the row before otherwise", assume=False)
+    S.explore(body)
+
+
 # ----------------------------------------------------------------------------- WaveformsLoader.load_waveforms (data version 2)
 def replay_loader(vals, oid):
     b, _ = native_e2e(np.random.default_rng(21), 6100, 1000, 1, sizes=[5, 16, 30], max_wf=16, seed=4)
